@@ -401,6 +401,7 @@ def run_unit(unit, R, tier):
         if parser_level_selected(descr, idx, tier):
             expf = expected_form(parts)
             n = len(body)
+            R.count("parser_bodies")
             bad = False
             for bs in range(1, n + 2):
                 if bad:
@@ -460,7 +461,7 @@ def finalize(R, tier):
     missing = need - R.used
     if missing:
         raise core.Broken(f"vacuity: never exercised {sorted(missing)}")
-    if R.counts["parser_runs"] < 1000:
+    if R.counts["parser_bodies"] < 20:
         raise core.Broken("vacuity: parser level barely ran")
     return {"bound": "payload depth 2/1, <=3 parts" if tier == "quick" else "payload depth 3/2, <=3 parts",
             "exhaustive": True,
